@@ -142,7 +142,7 @@ type c03Layer struct {
 
 type c03Patch struct {
 	ID   string `json:"id"`   // target resource
-	Op   string `json:"op"`   // add | replace | remove (remove is followed by an add that restores the user annotations)
+	Op   string `json:"op"`   // JSON6902: add | replace | remove (followed by an add restoring the user annotations); merge = strategic merge patch
 	Kind string `json:"kind"` // target kind
 }
 
@@ -609,7 +609,7 @@ func c03AddAnnotationPatches(g *c03Gen) {
 		}
 		at := where[rng.Intn(len(where))]
 		b.Layers[at].Patches = append(b.Layers[at].Patches,
-			c03Patch{ID: t.ID, Kind: t.Kind, Op: rng.Pick([]string{"add", "replace", "remove"})})
+			c03Patch{ID: t.ID, Kind: t.Kind, Op: rng.Pick([]string{"add", "replace", "remove", "add", "replace", "remove", "merge"})})
 		n++
 	}
 }
@@ -626,6 +626,18 @@ func c03PatchEntry(b *c03Build, p c03Patch) map[string]interface{} {
 			}
 		}
 	}
+	target := map[string]interface{}{"kind": p.Kind, "annotationSelector": c03Tracer + "=" + p.ID}
+	if p.Op == "merge" {
+		// a strategic merge patch through the same field: no StorePreviousId (name / kind changes not allowed)
+		t := b.res(p.ID)
+		av := "v1"
+		if t != nil {
+			av = t.APIVersion
+		}
+		doc := map[string]interface{}{"apiVersion": av, "kind": p.Kind,
+			"metadata": map[string]interface{}{"name": "any", "annotations": map[string]interface{}{"verif.c03/patched": "yes"}}}
+		return map[string]interface{}{"target": target, "patch": c03Yaml(doc)}
+	}
 	var ops []interface{}
 	switch p.Op {
 	case "remove":
@@ -638,10 +650,7 @@ func c03PatchEntry(b *c03Build, p c03Patch) map[string]interface{} {
 	if err != nil {
 		panic(err)
 	}
-	return map[string]interface{}{
-		"target": map[string]interface{}{"kind": p.Kind, "annotationSelector": c03Tracer + "=" + p.ID},
-		"patch":  string(raw),
-	}
+	return map[string]interface{}{"target": target, "patch": string(raw)}
 }
 
 // c03AddTwins: in a build with two sibling bases, copy a referent and a referrer of it from one base into
@@ -1323,7 +1332,38 @@ func c03LayerTerm(b *c03Build, i int, vals map[string]bool, pairs map[[2]string]
 		}
 		items = append(items, "IGen "+t)
 	}
-	return fmt.Sprintf("(Layer %s %s %s [%s])", coqStr(l.Namespace), coqStr(l.Prefix), coqStr(l.Suffix), strings.Join(items, "; ")), true
+	// the patch entries: one selection (flags over the accumulated resources, in order) per entry
+	ids := c03LayerIDs(b, i)
+	var touches []string
+	for _, p := range l.Patches {
+		if p.Op == "merge" {
+			continue // ApplySmPatch records the id only when the patch may change name or kind
+		}
+		flags := make([]string, len(ids))
+		for k, id := range ids {
+			flags[k] = coqBool(id == p.ID)
+		}
+		touches = append(touches, "["+strings.Join(flags, "; ")+"]")
+	}
+	return fmt.Sprintf("(Layer %s %s %s [%s] [%s])", coqStr(l.Namespace), coqStr(l.Prefix), coqStr(l.Suffix),
+		strings.Join(touches, "; "), strings.Join(items, "; ")), true
+}
+
+// c03LayerIDs: the resources kustomization i accumulates, in accumulation order (entries, bases flattened, then
+// the generated ones) - the order of the items of c03LayerTerm.
+func c03LayerIDs(b *c03Build, i int) []string {
+	l := b.Layers[i]
+	var ids []string
+	for _, e := range l.Entries {
+		if strings.HasPrefix(e, "res:") {
+			ids = append(ids, e[4:])
+		} else {
+			var j int
+			fmt.Sscanf(e, "dir:%d", &j)
+			ids = append(ids, c03LayerIDs(b, j)...)
+		}
+	}
+	return append(ids, l.Gens...)
 }
 
 // ---------------------------------------------------------------- running a build
@@ -1831,15 +1871,21 @@ func c03IsCascade(b *c03Build, e c03Edge, got, want string, out map[string]*reso
 		return false
 	}
 	// kinds of the rows that reach this field of this referrer
+	// (a row that lists the field twice - the Secret row has Ingress spec/tls/secretName twice and the merge of
+	// the default table keeps duplicates inside a row - visits it twice: it can follow its own rewrite)
 	reaching := map[string]bool{}
+	visits := map[string]int{}
+	total := 0
 	for _, row := range rules {
 		for _, fs := range row.Referrers {
 			if fs.Path == e.RulePath && c03RuleSelects(fs.Group, fs.Version, fs.Kind, a.APIVersion, a.Kind) {
 				reaching[row.Kind] = true
+				visits[row.Kind]++
+				total++
 			}
 		}
 	}
-	if !reaching[t.Kind] || len(reaching) < 2 {
+	if !reaching[t.Kind] || total < 2 {
 		return false
 	}
 	type state struct{ text, lastKind string }
@@ -1850,7 +1896,7 @@ func c03IsCascade(b *c03Build, e c03Edge, got, want string, out map[string]*reso
 		todo = todo[1:]
 		for _, r := range b.Res {
 			o := out[r.ID]
-			if o == nil || !reaching[r.Kind] || r.Kind == cur.lastKind || !c03NameInHistory(b, r, cur.text) {
+			if o == nil || !reaching[r.Kind] || (r.Kind == cur.lastKind && visits[r.Kind] < 2) || !c03NameInHistory(b, r, cur.text) {
 				continue
 			}
 			next := o.GetName()
@@ -1896,17 +1942,7 @@ func c03Cases(r *Run, b *c03Build, o c03Outcome) {
 	}
 	st := o.stages
 	// ---- CBook: layering -> identity + history before FixBackReferences
-	patched := false
-	for _, l := range b.Layers {
-		if len(l.Patches) > 0 {
-			patched = true
-		}
-	}
-	if patched {
-		// PatchTransformer is outside the rename model (it also calls StorePreviousId on every target, which
-		// records the current id once more): such builds are judged by the CRef case and the laws only
-		r.Count("case", "book:not-modelled(patches)")
-	} else if st.Stage == "" || st.Stage == "accumulate" || st.Stage == "hash" || st.Stage == "nameref" {
+	if st.Stage == "" || st.Stage == "accumulate" || st.Stage == "hash" || st.Stage == "nameref" {
 		vals := map[string]bool{}
 		pairs := map[[2]string]bool{}
 		lt, ok := c03LayerTerm(b, 0, vals, pairs)
